@@ -223,7 +223,8 @@ CLAIMED = {
              "those of an accepted call, that successive accepted values decrease by more than epsilon, that no later improvement was missed, that done <=> train < eps or (not accepted and learners >= round + patience), the "
              "patience-rounds characterisation in the fit loop, round <= learners, no patience stop without validation samples; the fold keeps exactly the first `round` learners and equals the snapshot model, predict over appended "
              "learners, and the averaged model predicts the mean (16 theorems). Correspondence: exhaustive error histories (length <= 6 quick / 8 thorough over a 5-value alphabet x patience x with/without validation) on the real "
-             "early_stopping_t vs the driver; full fits of linear (4 regularisers) and gboost models with every reported statistic recomputed from the stored per-fold / final models by the python oracle.",
+             "early_stopping_t vs the driver; full fits of linear (4 regularisers) and gboost models with every reported statistic recomputed from the stored per-fold / final models by the python oracle. "
+             "Gap-closing round (25 further theorems, 49 in all): the data flow of the fold fit (all shrinkage modes with the mutable ratio as coded, sub-sampling, the scaling-failure branch, statistics rows), the final stage of gboost_model_t::fit, tune_shrinkage, gboost::result_t, ml::result_t's storage / tune bookkeeping (on C13's and C20's models, imported) and linear_t::fit's bookkeeping are modelled with the solver / weak-learner fits as oracles: tracked_outputs_eq_model_prediction (after any number of rounds, every oracle behaviour and mode, the predictions at each done() call are bias + sum of the stored learners), the statistics row is the means of those predictions, the kept model reproduces the optimum round's row, the data-flow fit refines the control skeleton (so the 24 monitor theorems carry over), tune_shrinkage = first arg-min of the grid, a re-fit starts from the cleared state, the final model predicts the mean of the fold models and the final statistics are those of the final model on the GIVEN samples, reported_stats_are_stats_of_recomputed for any batch history and pool order, the linear fold / final statistics are those of the returned / refit model; wlearner scale / merge laws proved for C10's model so the end-to-end theorems carry no contract (gboost_fit_end_to_end, linear_fit_end_to_end). New families mlres / gbres; hook H3b logs the fitted samples, tracked predictions and the shrinkage grid per round (python monitors).",
         note=NOTE_COMMON + "The gboost round-loop skeleton (Model/Boost.lean) is tied to model.cpp by textual anchors + the statistics recomputation, not by a differential run; numeric fit quality is not claimed."),
     "C15": dict(
         category="proof", technique=TECH_GEN, design="DESIGN.md §4 C15",
